@@ -885,7 +885,50 @@ func c16r12(c *Ctx) {
 				return
 			}
 			o := calleeObj(call)
-			if o == nil || o.Name() != "send" {
+			if o == nil {
+				return
+			}
+			if o.Name() != "send" {
+				// a per-listener helper that makes the copy itself: a method of the listener that clones its slice
+				// parameter and hands the clone to send
+				sc := call.Call.StaticCallee()
+				if sc != nil && sc.Origin() != nil && (len(sc.Blocks) == 0 || strings.HasPrefix(sc.Synthetic, "instantiation wrapper")) {
+					sc = sc.Origin() // inside a generic body the callee is an instantiation wrapper over the type parameters
+				}
+				if sc == nil || len(sc.Blocks) == 0 || funcPkgPath(sc) != funcPkgPath(fn) {
+					return
+				}
+				clones := false
+				eachInstr(sc, func(i2 ssa.Instruction) {
+					c2, ok := i2.(*ssa.Call)
+					if !ok {
+						return
+					}
+					if o2 := calleeObj(c2); o2 != nil && o2.Name() == "send" {
+						for _, a := range c2.Call.Args {
+							if cp, isCall := a.(*ssa.Call); isCall {
+								if co := calleeObj(cp); co != nil && (co.Name() == "Clone" || co.Name() == "Copy") {
+									for _, ca := range cp.Call.Args {
+										if _, isPar := ca.(*ssa.Parameter); isPar {
+											clones = true
+										}
+									}
+								}
+							}
+						}
+					}
+				})
+				if !clones {
+					return
+				}
+				inLoop := false
+				for h := range headers {
+					if h.Dominates(call.Block()) && h != call.Block() {
+						inLoop = true
+					}
+				}
+				n++
+				c.Check("each listener is sent its own copy of the batch: "+stableFnName(fn), call.Pos(), inLoop, "the copying send helper is not called once per listener")
 				return
 			}
 			// the slice argument
